@@ -332,7 +332,9 @@ class CondModel:
                             self.reach[bk] = (key, "body invoked")
                             self.body_states.append(bk)
                         # the body runs for a while; afterwards the generator continues behind it
-                    if kind == "resume" and y == nid and st == s and self.forced(s) and y not in self.body_nodes:
+                    # a yield behind the body walk is not a wait for the force any more: the body has run
+                    behind_body = any(self.g.dominates(self.g.nodes[b], self.g.nodes[y]) for b in self.body_nodes if b != y)
+                    if kind == "resume" and y == nid and st == s and self.forced(s) and y not in self.body_nodes and not behind_body:
                         self.stuck.append((key, y, st))
                     for label, st2 in self._env(st):
                         self.events += 1
